@@ -53,15 +53,25 @@ LIBS = "-lgmpxx -lgmp -lmpfr -lz -lpthread"
 TARGETS = {}
 
 
+def target_files():
+    fs = [os.path.join(HARNESS, "targets.txt")]
+    d = os.path.join(HARNESS, "targets.d")
+    if os.path.isdir(d):
+        fs += sorted(os.path.join(d, f) for f in os.listdir(d) if f.endswith(".txt"))
+    return fs
+
+
 def _load_targets():
-    """targets.txt: name | source | extra cflags | extra ldflags | inst(0/1)"""
-    path = os.path.join(HARNESS, "targets.txt")
-    for line in open(path):
-        line = line.split("#")[0].strip()
-        if not line:
-            continue
-        f = [x.strip() for x in line.split("|")]
-        TARGETS[f[0]] = dict(src=f[1], cflags=f[2], ldflags=f[3], inst=f[4] == "1")
+    """targets.txt, targets.d/*.txt: name | source | extra cflags | extra ldflags | inst(0/1)   # flavours: a b"""
+    for path in target_files():
+        for line in open(path):
+            m = re.search(r"#\s*flavours:\s*(.*)$", line)
+            line = line.split("#")[0].strip()
+            if not line:
+                continue
+            f = [x.strip() for x in line.split("|")]
+            TARGETS[f[0]] = dict(src=f[1], cflags=f[2], ldflags=f[3], inst=f[4] == "1",
+                                 flavours=m.group(1).split() if m else [])
 
 
 def sha(*parts):
@@ -225,13 +235,7 @@ def build_target(flavour, name):
 def main(argv):
     _load_targets()
     if argv and argv[0] == "--all":
-        specs = []
-        for line in open(os.path.join(HARNESS, "targets.txt")):
-            m = re.search(r"#\s*flavours:\s*(.*)$", line)
-            name = line.split("|")[0].strip()
-            if m and name in TARGETS:
-                for f in m.group(1).split():
-                    specs.append((f, name))
+        specs = [(f, n) for n, t in TARGETS.items() for f in t["flavours"]]
     else:
         specs = [tuple(a.split(":", 1)) for a in argv]
     # build the libs first (one per flavour, in parallel), then the harnesses in parallel
